@@ -239,9 +239,11 @@ def _scan_artefacts(recipe, reps, update=False):
         def draws():     # the same injected draw stream as the capture run (recipes with random_reference)
             return injected_randbelow(chooser=S.chooser_for(recipe)) if S.uses_random(recipe) else contextlib.nullcontext()
         extra = {}
+        if recipe.get("supplied"):      # option values given by the user, as in the capture run (sfcore.run_recipe)
+            extra["user_options"] = dict(recipe["supplied"])
         if update:
             (d / "input.csv").write_text("Oid,Ext\n003A,x1\n003B,x2\n003C,x3\n")
-            extra = dict(update_input_file=str(d / "input.csv"), update_passthrough_fields=("Oid", "Ext"))
+            extra.update(update_input_file=str(d / "input.csv"), update_passthrough_fields=("Oid", "Ext"))
         with draws():
             generate_data(str(d / "r.yml"), parent_application=QuietApp(StoppingCriteria("__REPS__", reps)),
                           output_files=[str(jsonf), str(txtf), str(sqlf)], dburl=f"sqlite:///{db}",
